@@ -80,6 +80,12 @@ pub struct RelRow {
     pub resolves: bool,
     /// text → parse → text of the relative path is stable, and stays relative
     pub roundtrip: bool,
+    /// text of the re-parsed path
+    pub reparsed: String,
+    /// the re-parsed path `==` the converted one
+    pub reparsed_eq: bool,
+    /// both hash equally
+    pub hash_eq: bool,
 }
 
 impl Story {
@@ -144,6 +150,9 @@ impl Story {
                 is_relative: rel.is_relative(),
                 resolves,
                 roundtrip,
+                reparsed: reparsed.to_string(),
+                reparsed_eq: reparsed == rel,
+                hash_eq: hash_of(&reparsed) == hash_of(&rel),
             });
         }
         out
